@@ -748,6 +748,16 @@ impl Store {
         value: ValueEntry,
         force: bool,
     ) -> StoreResult<(bool, Option<Vec<AffectedLsSubscribers>>)> {
+        if !force
+            && let ValueEntry::Cas(_, version) = &value
+            && *version != 0
+            && self.get_node(path).and_then(Node::value).is_none()
+        {
+            // reject before any node is created for the path: a rejected write must not leave
+            // empty nodes behind (they would show up in ls and break the clean tree invariant)
+            return Err(StoreError::CasVersionMismatch);
+        }
+
         let mut ls_subscribers: Option<Vec<(Vec<LsSubscriber>, &[String])>> = None;
         let mut current_node = &mut self.data;
         let mut current_subscribers = Some(&self.subscribers);
